@@ -28,6 +28,9 @@ func coordAny(t *rapid.T, label string) ([]byte, float32) {
 // MetaSection draws magic + metadata, well-formed or ill-formed in one of the
 // listed ways, and what the specification says about it.
 func MetaSection(t *rapid.T) ([]byte, MetaExpect) {
+	if rapid.IntRange(0, 15).Draw(t, "meta.maximal") == 0 {
+		return maximalMeta(t)
+	}
 	exp := MetaExpect{Valid: true, ViewBox: [4]float32{-32, -32, 32, 32}}
 	for i := range exp.Palette {
 		exp.Palette[i] = spec.Black
@@ -263,5 +266,40 @@ func MetaSection(t *rapid.T) ([]byte, MetaExpect) {
 	if !exp.Valid {
 		exp.ViewBox = [4]float32{}
 	}
+	return out, exp
+}
+
+// maximalMeta: a well-formed metadata section about as long as one can be: both chunks, 64
+// palette entries of 4 bytes, viewBox coordinates in the 4-byte form and (nearly) every natural
+// in a non-minimal 4-byte form (286-297 bytes with the magic identifier).
+func maximalMeta(t *rapid.T) ([]byte, MetaExpect) {
+	exp := MetaExpect{Valid: true}
+	w := func(l string) int { return rapid.SampledFrom([]int{4, 4, 4, 2, 1}).Draw(t, l) }
+	nat := func(v uint32, width int) []byte {
+		if width < spec.NaturalWidth(v) {
+			width = spec.NaturalWidth(v)
+		}
+		return spec.EncodeNaturalW(v, width)
+	}
+	vb := [4]float32{float32(rapid.IntRange(-300, 0).Draw(t, "max.x0")), float32(rapid.IntRange(-300, 0).Draw(t, "max.y0")), float32(rapid.IntRange(1, 300).Draw(t, "max.x1")), float32(rapid.IntRange(1, 300).Draw(t, "max.y1"))}
+	exp.ViewBox = vb
+	body := nat(0, w("max.mid0"))
+	for _, v := range vb {
+		body = append(body, spec.EncodeNaturalW(math.Float32bits(v)>>2, 4)...)
+	}
+	chunkV := append(nat(uint32(len(body)), w("max.len0")), body...)
+	body = nat(1, w("max.mid1"))
+	body = append(body, 0xff) // 64 entries, 4 bytes each
+	for i := 0; i < 64; i++ {
+		c := ValidRGBA(t, "max.c")
+		exp.Palette[i] = c
+		body = append(body, c.R, c.G, c.B, c.A)
+	}
+	chunkP := append(nat(uint32(len(body)), w("max.len1")), body...)
+	out := append([]byte{}, spec.Magic...)
+	out = append(out, nat(2, w("max.count"))...)
+	out = append(out, chunkV...)
+	out = append(out, chunkP...)
+	exp.Labels = []string{"order=VP", "viewbox-valid", "palette-format-4", "metadata-in-its-longest-forms"}
 	return out, exp
 }
